@@ -64,13 +64,18 @@ pub fn build(draws: &[u16], _tier: Tier) -> Case {
             prog.threads[t].insert(at, Op::PanicInAtomMut { a: 2 });
         }
         6 => mode = "own_failure_or_none",
-        _ => mode = "branch_limit",
+        _ => mode = if s.chance(1, 2) { "branch_limit" } else { "thread_limit" },
     }
     let mut c = Case::new("C06", family, prog);
     c.x.mode = Some(mode.into());
     c.cfg.max_permutations = Some(3000);
     c.cfg.checkpoint_interval = 1;
     c.cfg.max_branches = if mode == "branch_limit" { s.range(2, 12) } else { 5000 };
+    if mode == "thread_limit" {
+        // one or two threads fewer than the program needs, or exactly enough
+        let need = c.prog.n_threads();
+        c.cfg.max_threads = (need + 1 - s.range(1, 3)).max(1);
+    }
     c
 }
 
@@ -156,7 +161,19 @@ pub fn eval(case: &Case) -> Verdict {
         "sentinel": {"iterations_alone": alone.iters, "iterations_after": rs.iters, "panic_after": rs.panic},
     });
     // 1. the faulty run itself
-    if mode == "branch_limit" {
+    if mode == "thread_limit" {
+        let need = p.n_threads();
+        match (&rp.panic, need > case.cfg.max_threads) {
+            (None, true) => {
+                // fewer threads allowed than the program spawns: some panic is required unless the
+                // program fails earlier in every execution
+                if !(reference.outcomes.is_empty() && reference.leak_outcomes.is_empty()) {
+                    return v.fail("limit_not_enforced", format!("the program runs {} threads, max_threads={} but the run completed", need, case.cfg.max_threads));
+                }
+            }
+            _ => {}
+        }
+    } else if mode == "branch_limit" {
         // either the limit is hit (documented message) or one of the reachable failures / a clean completion
         if let Some(m) = &rp.panic {
             let k = sc::panic_kind(m);
